@@ -230,7 +230,7 @@ def gen_case(rnd, k):
     for x in [t] + extra:
         ns |= {n for (n, _) in all_symbols(x)}
     FNS = {n for x in [t] + extra for (n, ty_) in all_symbols(x) if is_fun(ty_)}
-    m = names.hostile_mapping(rnd, ns, pct=55, functions=FNS)
+    m = names.hostile_mapping(rnd, ns, pct=55, functions=FNS, with_pow=any("POW" in B.ops_of(x) for x in [t] + extra))
     return names.rename(t, m), g, g.cards(), [names.rename(x, m) for x in extra]
 
 
